@@ -212,7 +212,7 @@ func init() {
 		types: []string{"GSAP"}, quickN: 16000, thorMul: 40, corpusN: 2000, large: false, midtext: true,
 		weights: HWeights{Write: 18, ReadFrom: 6, Parse: 34, ParseNTL: 16, ParseNil: 0, Shrink: 12, Reset: 2, ResetData: 3, WParse: 6},
 		opts:    func(typ string) gen.Opts { return gen.Opts{} },
-		scale:   []string{"allsources"},
+		scale:   []string{"allsources", "noisecopy", "ntlburst"},
 		tweak: func(r *rand.Rand, pc *PCase, kind string) {
 			if r.Intn(2) == 0 {
 				// the literal clause needs BufferSize <= WindowSize
